@@ -763,20 +763,33 @@ class CountControlConstructionToken(CompositeBaseToken):
          BracketFinishToken]
     ]
 
+    @staticmethod
+    def _reference(expression: ExpressionToken):
+        """
+        The matrix or cell token if the whole argument is a bare reference, otherwise None
+        (A1+1, -A1, (A1), SUM(A1:A2) are expressions and are counted by their value)
+        """
+        operand = expression.value[0]
+        if len(expression.value) == 1 and isinstance(operand, OperandToken) and isinstance(
+                operand.value[0], (MatrixOfCellIdentifiersToken, CellIdentifierToken)):
+            return operand.value[0]
+
+        return None
+
     @property
     def matrices(self) -> list[MatrixOfCellIdentifiersToken]:
         return [
-            expression.left_operand.matrix
+            self._reference(expression)
             for expression in self.value[2].expressions
-            if hasattr(expression.left_operand, 'matrix') and expression.left_operand.matrix is not None
+            if isinstance(self._reference(expression), MatrixOfCellIdentifiersToken)
         ]
 
     @property
     def arg_cells(self) -> list[CellIdentifierToken]:
         return [
-            expression.left_operand.value[0]
+            self._reference(expression)
             for expression in self.value[2].expressions
-            if isinstance(expression.left_operand.value[0], CellIdentifierToken)
+            if isinstance(self._reference(expression), CellIdentifierToken)
         ]
 
     @property
@@ -784,7 +797,7 @@ class CountControlConstructionToken(CompositeBaseToken):
         return [
             expression
             for expression in self.value[2].expressions
-            if isinstance(expression.left_operand.value[0], LiteralToken)
+            if self._reference(expression) is None
         ]
 
 
